@@ -194,9 +194,23 @@ WStart(w) ==
          /\ mon' = [mon EXCEPT !.live = IF p.lo < p.hi THEN @ ELSE @ - 1]
   /\ UNCHANGED <<prog, pe, rc, sp, bag, result>>
 
+\* does evaluating source position i (0-based) make the call that panics?
+CrashAt(i) == prog.cs >= 0 /\ \E j \in 1..Len(pe[i + 1].calls) :
+                 pe[i + 1].calls[j][1] = prog.cs /\ pe[i + 1].calls[j][2] = prog.ck
+
+\* a closure panics while worker w evaluates element cur: the worker unwinds and ends; nothing
+\* else changes (the others run on, the scope joins everybody, the caller re-raises)
+WPanic(w) ==
+  /\ wk[w].pc = "hold"
+  /\ CrashAt(wk[w].cur)
+  /\ wk' = [wk EXCEPT ![w].pc = "panicked"]
+  /\ mon' = [mon EXCEPT !.live = @ - 1]
+  /\ UNCHANGED <<prog, pe, rc, counter, gate, sp, bag, result>>
+
 \* the worker finishes element cur and moves on
 WStep(w) ==
   /\ wk[w].pc = "hold"
+  /\ ~CrashAt(wk[w].cur)
   /\ LET i == wk[w].cur
          r == EvalInto(wk[w], i)
          ev == [mon EXCEPT !.evald[i + 1] = @ + 1,
@@ -229,7 +243,8 @@ WStep(w) ==
 (* Join and combine (on the calling thread).                               *)
 (***************************************************************************)
 Spawned == 1..sp.spawned
-AllDone == \A w \in Spawned : wk[w].pc = "done"
+AllDone == \A w \in Spawned : wk[w].pc \in {"done", "panicked"}
+SomePanicked == \E w \in Spawned : wk[w].pc = "panicked"
 
 KeyLess(a, b) == a[1] < b[1] \/ (a[1] = b[1] /\ a[2] < b[2])
 RECURSIVE KMerge(_)
@@ -266,8 +281,8 @@ Combined ==
 SJoin ==
   /\ sp.pc = "join"
   /\ AllDone
-  /\ rc.kernel = "collect_bag" => BagFull          \* unwrap_only_if_counts_match
-  /\ result' = <<Combined>>
+  /\ (rc.kernel = "collect_bag" /\ ~SomePanicked) => BagFull          \* unwrap_only_if_counts_match
+  /\ result' = IF SomePanicked THEN <<"panic", 0>> ELSE <<"ok", Combined>>
   /\ sp' = [sp EXCEPT !.pc = "done"]
   /\ UNCHANGED <<prog, pe, rc, counter, gate, wk, bag, mon>>
 
@@ -282,7 +297,7 @@ SeqValue ==
 
 SSeq ==
   /\ sp.pc = "seq"
-  /\ result' = <<SeqValue>>
+  /\ result' = <<"ok", SeqValue>>
   /\ sp' = [sp EXCEPT !.pc = "done"]
   /\ UNCHANGED <<prog, pe, rc, counter, gate, wk, bag, mon>>
 
@@ -290,7 +305,7 @@ Done == sp.pc = "done"
 
 Next ==
   \/ SDecideSpawn \/ SDecideStop \/ SChunkContinue \/ SChunkStop \/ SJoin \/ SSeq
-  \/ \E w \in 1..MaxW : WStart(w) \/ WStep(w)
+  \/ \E w \in 1..MaxW : WStart(w) \/ WStep(w) \/ WPanic(w)
 
 (***************************************************************************)
 (* Properties of the protocol (checked by TLC on bounded instances).       *)
@@ -300,22 +315,22 @@ IsFull == prog.term.k \in FullTerms
 
 \* C01 / C06: ordered collection is the sequential output
 P_OrderedCollect ==
-  Done /\ rc.kernel \in {"collect_bag", "collect_merge"} => result[1] = Out
+  Done /\ ~SomePanicked /\ rc.kernel \in {"collect_bag", "collect_merge"} => result[2] = Out
 \* C07 / C03: unordered collection and (free) reduction are permutations of the sequential output
 P_Permutation ==
-  Done /\ rc.kernel \in {"collect_x", "reduce"} => BagEq(BagOfSeq(result[1]), BagOfSeq(Out))
+  Done /\ ~SomePanicked /\ rc.kernel \in {"collect_x", "reduce"} => BagEq(BagOfSeq(result[2]), BagOfSeq(Out))
 \* C04
-P_Count == Done /\ rc.kernel = "count" => result[1] = Len(Out)
+P_Count == Done /\ ~SomePanicked /\ rc.kernel = "count" => result[2] = Len(Out)
 \* C02: the match with the smallest source position, with that position
 P_FirstMatch ==
-  Done /\ rc.kernel = "find" =>
-     IF FirstMatch(prog, Out) = 0 THEN result[1] = <<>>
-     ELSE result[1] = <<RootOf(prog, Out[FirstMatch(prog, Out)].k), Out[FirstMatch(prog, Out)]>>
+  Done /\ ~SomePanicked /\ rc.kernel = "find" =>
+     IF FirstMatch(prog, Out) = 0 THEN result[2] = <<>>
+     ELSE result[2] = <<RootOf(prog, Out[FirstMatch(prog, Out)].k), Out[FirstMatch(prog, Out)]>>
 \* C09: sequential mode is the sequential value (and no worker exists)
-P_Sequential == Done /\ rc.kernel = "seq" => result[1] = SeqValue /\ sp.spawned = 0
+P_Sequential == Done /\ rc.kernel = "seq" => result[2] = SeqValue /\ sp.spawned = 0
 \* C05: nothing is evaluated twice; full terminals evaluate everything exactly once
 P_AtMostOnce == \A i \in 1..N : mon.evald[i] <= 1
-P_ExactlyOnce == Done /\ IsFull /\ rc.kernel # "seq" => \A i \in 1..N : mon.evald[i] = 1
+P_ExactlyOnce == Done /\ ~SomePanicked /\ IsFull /\ rc.kernel # "seq" => \A i \in 1..N : mon.evald[i] = 1
 \* merge precondition: every per-thread buffer is strictly increasing in its key
 P_BuffersSorted ==
   rc.kernel = "collect_merge" =>
@@ -338,6 +353,8 @@ P_ExactPulls ==
 \* chunks held at the same time never overlap
 P_DisjointPulls ==
   \A v, w \in Spawned : v # w /\ Holding(v) /\ Holding(w) => wk[v].hi <= wk[w].lo \/ wk[w].hi <= wk[v].lo
+\* C14: a panicking closure makes the call panic (it never returns a value), and the run still ends
+P_PanicPropagates == Done => (SomePanicked <=> result[1] = "panic")
 \* the run always finishes
 P_Terminates == <>Done
 
@@ -345,5 +362,5 @@ TypeOK ==
   /\ counter \in Nat
   /\ gate \in {"open", "done"}
   /\ sp.pc \in {"decide", "chunk", "join", "seq", "done"}
-  /\ \A w \in 1..MaxW : wk[w].pc \in {"none", "ready", "hold", "done"}
+  /\ \A w \in 1..MaxW : wk[w].pc \in {"none", "ready", "hold", "done", "panicked"}
 =============================================================================
